@@ -1281,26 +1281,46 @@ Qed.
 Lemma probe_admits_cap sc :
   let c := cfg_of sc in
   let k := (length (script_evs sc) + callers_of sc)%nat in
-  firstn (cap c) (col6 1 (skipn (6 * k) (run_script sc))) = repeat 1 (cap c).
+  let m := Nat.min (cap c) (probe_len sc) in
+  firstn m (col6 1 (skipn (6 * k) (run_script sc))) = repeat 1 m.
 Proof.
   cbv zeta. unfold run_script, probe_evs.
   set (c := cfg_of sc). set (n := callers_of sc). set (evs := script_evs sc).
-  set (total := Nat.min _ _).
+  set (total := Nat.min (n + _) _). set (pl := probe_len sc). set (m := Nat.min (cap c) pl).
   rewrite app_assoc, run_evs_app.
   rewrite skipn_app_exact
     by (rewrite run_evs_length, app_length, map_length, seq_length; reflexivity).
   rewrite col6_started.
-  rewrite seq_app, map_app, run_obs_app, map_app.
+  replace (seq n pl) with (seq n m ++ seq (n + m) (pl - m))
+    by (rewrite <- seq_app; f_equal; unfold m; lia).
+  rewrite map_app, run_obs_app, map_app.
   destruct (probe_state c n evs (evs_of_ids n _)) as [HI [Hidle Hfresh]].
   set (s := fold_left (step_st c) (evs ++ map Drop (seq 0 n)) (init c)) in *.
   destruct (idle_lists c s HI Hidle) as [Hq [Hg Hr]].
-  assert (HB : Forall (fun o => started o = true) (run_obs c s (map Poll (seq n (cap c))))).
+  assert (HB : Forall (fun o => started o = true) (run_obs c s (map Poll (seq n m)))).
   { apply burst; try assumption.
     - apply seq_NoDup.
     - intros i Hi. apply in_seq in Hi. apply Hfresh. lia.
-    - rewrite seq_length, Hr. cbn. lia. }
+    - rewrite seq_length, Hr. cbn. unfold m. lia. }
   rewrite firstn_app_exact by (rewrite map_length, run_obs_length, map_length, seq_length; reflexivity).
   rewrite (all_started_ones _ HB), run_obs_length, map_length, seq_length. reflexivity.
+Qed.
+
+(* for an ordinary capacity the probe has cap + 1 callers, so m = cap; for a sentinel capacity
+   (clamped to MAX_PERMITS by the code, BIG_CAP here) every one of the PROBE_BIG probe callers starts *)
+Lemma probe_min_ordinary sc :
+  zn sc 0 < CAP_SENTINEL -> Nat.min (cap (cfg_of sc)) (probe_len sc) = cap (cfg_of sc).
+Proof.
+  intros H. unfold probe_len. assert (E : CAP_SENTINEL <=? zn sc 0 = false) by (apply Z.leb_gt; exact H).
+  rewrite E. lia.
+Qed.
+
+Lemma probe_min_sentinel sc :
+  CAP_SENTINEL <= zn sc 0 -> Nat.min (cap (cfg_of sc)) (probe_len sc) = PROBE_BIG.
+Proof.
+  intros H. unfold probe_len, cfg_of. cbn [cap].
+  assert (E : CAP_SENTINEL <=? zn sc 0 = true) by (apply Z.leb_le; exact H).
+  rewrite E. reflexivity.
 Qed.
 
 (* ---------- non-vacuity ---------- *)
@@ -1368,6 +1388,13 @@ Example ex_spare :
   queue s = [] /\ granted s = [] /\ inflight s = 1%nat /\
   map started (run_obs c s (map Poll [1; 2]%nat)) = [true; true].
 Proof. vm_compute. repeat split; reflexivity. Qed.
+
+(* a sentinel capacity (max_concurrent_calls(usize::MAX), clamped by Bulkhead::new): nobody is ever
+   refused -- three callers and all eight probe callers start *)
+Example ex_sentinel_cap :
+  col6 1 (run_script [1000000000000000; 0; 3;  1; 0; 0;  1; 1; 0;  1; 2; 0]) =
+    [1; 1; 1;  0; 0; 0;  1; 1; 1; 1; 1; 1; 1; 1].
+Proof. vm_compute. reflexivity. Qed.
 
 (* a whole script through run_script: cap 1, max_wait 10 ms, 2 callers; the second caller queues,
    is rejected at its deadline; then the probe: the scripted callers are dropped, the first
